@@ -84,7 +84,7 @@ CHECKS = {
                 "on the simulated clock for 30 s (either cascade) from a seeded initial condition: position "
                 "within 3 m of the commanded hover point, commanded heading anywhere in (-pi, pi], tilt <= 60 deg about a random axis, initial heading within 150 deg of the commanded one, either quaternion sign, body "
                 "velocity and rates in +-1.5, rotors at hover speed or at rest; invariants every tick (finite state, motor commands in "
-                "[0, sqrt(F_max/CT)]), bounded-liveness oracle on the late part of the trajectory; distinct = distinct initial-condition cell "
+                "[0, sqrt(F_max/CT)]), bounded-liveness oracle on the late part of the trajectory (converged to the node's own hover point, which must be at rest and within 15 m of the commanded one); 30 % of runs draw the tilt from 45-60 deg; distinct = distinct initial-condition cell "
                 "(mode, distance, tilt bucket, speed, rate, rotors, quaternion sign, leash / ground contact / saturation reached); every run is "
                 "non-trivial",
         "real": ["scripts/rdd2_sim.py Simulator", "models.quadrotor (plant, CVODES)", "models.rdd2 / rdd2_loglinear controllers and allocator", "sensor noise as the script has it (seeded)"],
